@@ -17,6 +17,10 @@ fn main() {
         probe(&args[1..]);
         return;
     }
+    if id == "audit-options" {
+        audit_options();
+        return;
+    }
     if id == "fuzz-artifact" {
         // fuzz-artifact <target> <file>: decode a libFuzzer artifact into the C07 replay case (JSON on stdout)
         let target = args.get(1).cloned().unwrap_or_default();
@@ -134,6 +138,56 @@ fn probe(args: &[String]) {
                 );
             }
             Err(e) => println!("---- ERR {}", e.text()),
+        }
+    }
+}
+
+/// For every lettered slot of every layout: which option letters does the library accept there, and which
+/// does the layout generate? (A development aid: the layouts must follow the library's own structs.)
+fn audit_options() {
+    use std::collections::{BTreeMap, BTreeSet};
+    use swiftmt_verif::choice::{Src, splitmix};
+    use swiftmt_verif::fieldkit::{gen_valid, spec_of_tag};
+    let mut generated: BTreeMap<(String, String, usize), BTreeSet<String>> = BTreeMap::new();
+    let mut accepted: BTreeMap<(String, String, usize), BTreeSet<String>> = BTreeMap::new();
+    for ops in swiftmt_verif::lib_api::MSGS {
+        let mt = ops.mt;
+        for k in 0..60u64 {
+            let choices: Vec<u32> = (0..2000).map(|i| splitmix(k * 7919 + i) as u32).collect();
+            let mut src = Src::new(&choices);
+            let m = swiftmt_verif::msgkit::gen_valid_msg(mt, &mut src);
+            if (ops.parse_block4)(&m.text(false, false)).is_err() {
+                continue;
+            }
+            for (i, f) in m.fields.iter().enumerate() {
+                if f.n_options < 2 {
+                    continue;
+                }
+                let base: String = f.tag.chars().take_while(|c| c.is_ascii_digit()).collect();
+                let letter = f.tag[base.len()..].to_string();
+                let key = (mt.to_string(), base.clone(), f.path.len());
+                generated.entry(key.clone()).or_default().insert(letter);
+                for l in " ABCDEFGHIJKLMNOPQRSTUVWXYZ".chars() {
+                    let tag = if l == ' ' { base.clone() } else { format!("{base}{l}") };
+                    if spec_of_tag(&tag).is_none() {
+                        continue;
+                    }
+                    let ty = spec_of_tag(&tag).unwrap().ty;
+                    let c = gen_valid(ty, &mut src);
+                    let mut m2 = m.clone();
+                    m2.fields[i].tag = tag.clone();
+                    m2.fields[i].content = c.content;
+                    if (ops.parse_block4)(&m2.text(false, false)).is_ok() {
+                        accepted.entry(key.clone()).or_default().insert(tag[base.len()..].to_string());
+                    }
+                }
+            }
+        }
+    }
+    for (k, g) in &generated {
+        let a = accepted.get(k).cloned().unwrap_or_default();
+        if &a != g {
+            println!("MT{} field {} (depth {}): layout generates {:?}, library accepts {:?}", k.0, k.1, k.2, g, a);
         }
     }
 }
